@@ -21,6 +21,12 @@ def load(ids):
             props = m["property"] if isinstance(m["property"], list) else [m["property"]]
             if not ids or m["id"] in ids or any(p in ids for p in props):
                 ms.append(m)
+    # changes written by independent sub-agents (see /verif/seeded/*/meta.json)
+    for f in sorted(glob.glob(os.path.join(VERIF, "seeded", "*", "meta.json"))):
+        meta = json.load(open(f))
+        m = dict(id="seeded-" + meta["id"], property=[meta["breaks_property"]], patch=os.path.join(os.path.dirname(f), "patch.diff"), notest=True)
+        if not ids or m["id"] in ids or meta["breaks_property"] in ids:
+            ms.append(m)
     return ms
 
 def run_one(m, mode):
@@ -28,7 +34,15 @@ def run_one(m, mode):
     try:
         repo = os.path.join(d, "repo")
         shutil.copytree(REPO, repo, ignore=shutil.ignore_patterns(".git"))
-        edits = m.get("edits") or [dict(file=m["file"], old=m["old"], new=m["new"])]
+        if m.get("patch"):
+            pr = subprocess.run(["patch", "-p1", "-s", "-i", m["patch"]], cwd=repo, capture_output=True, text=True)
+            if pr.returncode != 0:
+                return dict(id=m["id"], status="not-applicable", detail="patch does not apply: " + pr.stdout[-200:])
+            for junk in glob.glob(os.path.join(repo, "*.orig")):
+                os.remove(junk)
+            edits = []
+        else:
+            edits = m.get("edits") or [dict(file=m["file"], old=m["old"], new=m["new"])]
         for e in edits:
             p = os.path.join(repo, e["file"])
             s = open(p).read()
